@@ -42,7 +42,8 @@ Inductive exn :=
 
 Inductive val :=
 | VU | VZ (z : Z) | VN (n : nat) | VB (b : bool) | VX (t : xtime)
-| VCont (v : val) | VBreak (v : val).
+| VCont (v : val) | VBreak (v : val)
+| VYield (v : val) | VEnd.             (* results of an async generator step: a value / StopAsyncIteration *)
 
 Definition vnat (v : val) : nat := match v with VN n => n | _ => 0 end.
 Definition vbool (v : val) : bool := match v with VB b => b | _ => false end.
@@ -123,12 +124,21 @@ Inductive prog :=
 | LoopS (s : val) (body : val -> prog)    (* body returns VCont s' (again) or VBreak v (leave with v) *)
 | CloseAct (a : aid)                      (* coroutine.close() of another activity, synchronously *)
 | Dyn (f : objs -> aid -> prog)           (* continue with a program chosen from the current state *)
+| GenNew (body : prog)                    (* create an async generator object; returns VN g *)
+| GenNext (g : nat)                       (* __anext__: run it until it yields (VYield v) or ends (VEnd) *)
+| Yield (v : val)                         (* inside a generator body: hand v to the consumer *)
+| GenClose (g : nat)                      (* finalisation of an abandoned generator: GeneratorExit at its yield *)
 with pres :=
 | mkpres (o : objs) (ops : list kop) (spawn : list (aid * prog)) (r : val + exn).
 
 Definition primfn := objs -> aid -> pres.
 
-Inductive frame := FBind (k : val -> prog) | FCatch (h : exn -> prog) | FLoop (body : val -> prog).
+Inductive frame :=
+| FBind (k : val -> prog) | FCatch (h : exn -> prog) | FLoop (body : val -> prog)
+| FGenMark (g : nat)      (* below: the consumer that called __anext__; above: the generator's frames *)
+| FGenClose (g : nat).    (* same, while the generator is being finalised *)
+
+Inductive gstate := GNew (p : prog) | GSusp (fs : list frame) | GRun | GDone.
 
 Inductive astate := ANew (p : prog) | ASusp (st : list frame) | ARun | ADead.
 
@@ -140,9 +150,10 @@ Record mstate := mkM {
   ob : objs;
   acts : list astate;
   result : runres;
-  klog : list kop      (* ghost: kernel requests issued during the current activation, in order *)
+  klog : list kop;     (* ghost: kernel requests issued during the current activation, in order *)
+  gens : list gstate   (* async generator objects *)
 }.
-#[export] Instance eta_m : Settable _ := settable! mkM <ob; acts; result; klog>.
+#[export] Instance eta_m : Settable _ := settable! mkM <ob; acts; result; klog; gens>.
 
 (** ** tables *)
 Fixpoint list_upd {A} (l : list A) (i : nat) (x : A) : list A :=
@@ -164,6 +175,17 @@ Definition add_acts (m : mstate) (sp : list (aid * prog)) : mstate :=
             sp m.
 
 Definition set_kern (o : objs) (k : loop) : objs := o <| kern := k |>.
+
+Definition set_gen (m : mstate) (g : nat) (s : gstate) : mstate := m <| gens := list_upd (gens m) g s |>.
+
+(** the frames of the innermost running generator: everything above the nearest generator mark *)
+Fixpoint split_gen (st : list frame) (acc : list frame) : option (list frame * frame * list frame) :=
+  match st with
+  | [] => None
+  | (FGenMark g as f) :: r => Some (rev acc, f, r)
+  | (FGenClose g as f) :: r => Some (rev acc, f, r)
+  | f :: r => split_gen r (f :: acc)
+  end.
 
 (** ** the stepper *)
 
@@ -230,6 +252,28 @@ Definition step1 (cur : aid) (m : mstate) (md : mode) (c : ctx) (outer : list ct
           | _ => SCont m (MRet VU) c outer
           end
       | Dyn f => SCont m (MRun (f (ob m) cur)) c outer
+      | GenNew body => SCont (m <| gens := gens m ++ [GNew body] |>) (MRet (VN (length (gens m)))) c outer
+      | GenNext g =>
+          match nth_error (gens m) g with
+          | Some (GNew p) => SCont (set_gen m g GRun) (MRun p) (withst (FGenMark g :: st)) outer
+          | Some (GSusp fs) => SCont (set_gen m g GRun) (MRet VU) (withst (fs ++ FGenMark g :: st)) outer
+          | Some GRun => SCont m (MThrow (ERuntime 5)) c outer     (* anext(): asynchronous generator is already running *)
+          | _ => SCont m (MRet VEnd) c outer
+          end
+      | Yield v =>
+          match split_gen st [] with
+          | Some (above, FGenMark g, below) => SCont (set_gen m g (GSusp above)) (MRet (VYield v)) (withst below) outer
+          | Some (above, FGenClose g, below) =>
+              (* async generator ignored GeneratorExit: reported as unraisable during finalisation *)
+              SCont (set_gen m g GDone) (MRet VU) (withst below) outer
+          | _ => SCont m (MThrow (ERuntime 6)) c outer
+          end
+      | GenClose g =>
+          match nth_error (gens m) g with
+          | Some (GNew _) => SCont (set_gen m g GDone) (MRet VU) c outer
+          | Some (GSusp fs) => SCont (set_gen m g GRun) (MThrow EGenExit) (withst (fs ++ FGenClose g :: st)) outer
+          | _ => SCont m (MRet VU) c outer
+          end
       end
   | MRet v =>
       match st with
@@ -242,6 +286,8 @@ Definition step1 (cur : aid) (m : mstate) (md : mode) (c : ctx) (outer : list ct
           | VBreak r => SCont m (MRet r) (withst st') outer
           | _ => SCont m (MThrow (ERuntime 9)) (withst st') outer
           end
+      | FGenMark g :: st' => SCont (set_gen m g GDone) (MRet VEnd) (withst st') outer
+      | FGenClose g :: st' => SCont (set_gen m g GDone) (MRet VU) (withst st') outer
       end
   | MThrow e =>
       match st with
@@ -249,6 +295,10 @@ Definition step1 (cur : aid) (m : mstate) (md : mode) (c : ctx) (outer : list ct
       | FBind _ :: st' => SCont m (MThrow e) (withst st') outer
       | FCatch h :: st' => SCont m (MRun (h e)) (withst st') outer
       | FLoop _ :: st' => SCont m (MThrow e) (withst st') outer
+      | FGenMark g :: st' => SCont (set_gen m g GDone) (MThrow e) (withst st') outer
+      | FGenClose g :: st' =>
+          (* exceptions of a generator that is being finalised are unraisable: swallowed *)
+          SCont (set_gen m g GDone) (MRet VU) (withst st') outer
       end
   end.
 
